@@ -65,6 +65,7 @@ RULE_TEXT = {
     "MW5": "with a non-empty middleware list every action reaches each hook loop (before_dispatch: every notifying action)",
     "SE5": "last_value is touched only by on_notify/new; the selector subscriber has no lifecycle-dependent state",
     "IN4": "exported subscriber types change no state in on_unsubscribe",
+    "IN6": "exported callback types own no interior-mutable state beyond the confirmed table (SelectorSubscriber's memo)",
     "IN5": "callback methods of exported (shareable) types wait for their own locks: no try_lock whose failure path depends on another store",
     "LC3": "every on_unsubscribe call runs with the subscriber-list lock held in its calling context",
     "BU1": "each builder setter returns self and writes only its own option with values from its own parameter (with_* replaces, add_* pushes)",
@@ -147,7 +148,7 @@ PROPS = {
                    T.st1_stop_is_close_plus_join, T.st3_loop_exits, r(_ch1_block, name="CH1"), r(_ch2_block, name="CH2"),
                    r(M.mw_table, only=r"flags:before_reduce:(ContinueAction|BreakChain|Err)|MW2:.*before_reduce"),
                    S.cb1_callbacks_hold_no_reentrant_lock),
-        "explanation": "Static decision on the compiler's MIR: single consumer of one queue (Q1,Q2,Q6); per received action exactly one chain pass that threads the chain variable through every registered reducer in order (PI1,PI3,PI4,PI6); only a before_reduce DoneAction keeps an action from the reducers (MW flags, MW2); the chain's result is written back unconditionally by the only writer of the state cell (PI5,S1,S2); stop() joins the consumer (ST1,ST3); the blocking arm never discards (CH1,CH2). Premises of the fold argument in DESIGN.md C01; behaviour follows from these premises plus the trusted base, nothing is executed.",
+        "explanation": "Static decision on the compiler's MIR: single consumer of one queue (Q1,Q2,Q6); per received action exactly one chain pass that threads the chain variable through every registered reducer in order (PI1,PI3,PI4,PI6); only a before_reduce DoneAction keeps an action from the reducers (MW flags, MW2); the chain's result is written back unconditionally by the only writer of the state cell (PI5,S1,S2); stop() joins the consumer (ST1,ST3); the blocking arm never discards (CH1,CH2). Premises of the fold argument in DESIGN.md C01; behaviour follows from these premises plus the trusted base, nothing is executed. User callbacks never run with the state lock held, on_notify never with the list lock (CB1): a callback that reads the state or (un)subscribes cannot stop the thread that reduces.",
         "not_decided": ["FIFO/no-loss of crossbeam recv (trusted)"],
     },
     "C02": {
@@ -156,8 +157,8 @@ PROPS = {
                    Q.d1_same_store_dispatcher, C.ch4_retry_identity, Q.q7_head_of_queue,
                    r(P.pi1_one_pass_per_action, only=r"receive events|count:REDUCE|single-loop:REDUCE"),
                    r(P.pi6_action_identity, only=r"REDUCE"), r(T.st3_loop_exits, only=r"continues-only-on-action|count:|floor:"),
-                   Q.q10_store_fabricates_no_effect),
-        "explanation": "Static decision: a dispatch that returns Ok has already appended its action to the single FIFO queue on the caller's thread (Q5); only the consumer's head-recv and the DropOldest head-pop remove items and a bounced item is re-appended (Q2,CH4); the consumer reduces exactly the item it just received, one at a time, in receive order (Q1,Q6,PI1,PI6,ST3); dispatchers handed to thunks/middleware belong to the same store (D1). Order then follows from crossbeam's linearizable FIFO (trusted).",
+                   Q.q10_store_fabricates_no_effect, E.e6_reducer_never_enqueues),
+        "explanation": "Static decision: a dispatch that returns Ok has already appended its action to the single FIFO queue on the caller's thread (Q5); only the consumer's head-recv and the DropOldest head-pop remove items and a bounced item is re-appended (Q2,CH4); the consumer reduces exactly the item it just received, one at a time, in receive order (Q1,Q6,PI1,PI6,ST3); dispatchers handed to thunks/middleware belong to the same store (D1). Order then follows from crossbeam's linearizable FIFO (trusted). The wrapper enqueues only the caller's item (CH4), the store fabricates no effect and the reducer thread never re-enqueues (Q10,E6): a dequeued or rejected action never re-enters behind later ones.",
         "not_decided": ["linearizability / FIFO of the bounded channel (trusted)"],
     },
     "C03": {
@@ -169,7 +170,7 @@ PROPS = {
                    E.e6_reducer_never_enqueues, r(PI3_NOTIFY, name="PI3"),
                    r(S.su2_unsubscribe, only=r"compares-element-with-own-subscriber|identity-test|removes-exactly-the-identical-element|floor"),
                    M.n4_notify_phase_not_bypassed, S.cb1_callbacks_hold_no_reentrant_lock),
-        "explanation": "Static decision: one notify decision per reduced action from the last reducer's answer (N1,N2), one forward pass over a snapshot of the registration-ordered list (SU1,PI3) with that action and the chain's result state (N3,PI6), suppressed only by a before_dispatch DoneAction (MW table, MW2); nothing on the reducer thread between reduce and notify can block on or fail through the store's own queue (E6).",
+        "explanation": "Static decision: one notify decision per reduced action from the last reducer's answer (N1,N2), one forward pass over a snapshot of the registration-ordered list (SU1,PI3) with that action and the chain's result state (N3,PI6), suppressed only by a before_dispatch DoneAction (MW table, MW2); nothing on the reducer thread between reduce and notify can block on or fail through the store's own queue (E6). Only the identical subscriber is removed by a handle (SU2); with a Dispatch answer and no veto every pass reaches the subscriber loop (N4); callbacks cannot block the reducer thread on its own locks (CB1).",
         "not_decided": ["chains mixing Dispatch and Keep beyond 'last decides'"],
     },
     "C04": {
@@ -178,7 +179,7 @@ PROPS = {
                    S.su3_shutdown_release, T.st1_stop_is_close_plus_join, T.st2_closed_means_err, T.st3_loop_exits,
                    T.st4_callbacks_live_in_the_loop, T.st5_idempotent, r(C.dr1_result_mapping, only=r"result-maps-Ok|result-ignored|floor"),
                    r(X.ch_channeled_release, name="R2"), S.lc3_release_under_list_lock),
-        "explanation": "Static decision: accepted actions are enqueued under the sender lock (Q3,CH2), close() empties the slot under that lock before Exit is enqueued (Q4), the loop ends only on Exit/disconnect and then releases every subscriber, which joins channeled threads after disconnecting them (ST3,SU3,R2), stop() = close + join of the pool on every path without holding a store lock (ST1), closed => Err without effect and Err only when nothing was enqueued (ST2,CH2,DR1), callbacks exist only inside the joined loop (ST4), second close/stop do nothing (ST5).",
+        "explanation": "Static decision: accepted actions are enqueued under the sender lock (Q3,CH2), close() empties the slot under that lock before Exit is enqueued (Q4), the loop ends only on Exit/disconnect and then releases every subscriber, which joins channeled threads after disconnecting them (ST3,SU3,R2), stop() = close + join of the pool on every path without holding a store lock (ST1), closed => Err without effect and Err only when nothing was enqueued (ST2,CH2,DR1), callbacks exist only inside the joined loop (ST4), second close/stop do nothing (ST5). The blocking arm cannot give up (CH1); every release runs under the list lock in its calling context (LC3).",
         "not_decided": ["the 3 s timeout", "two racing shutdowns", "shutdown_join semantics (trusted)"],
     },
     "C05": {
@@ -186,7 +187,7 @@ PROPS = {
                    B.b1_capacity_zero_rejected, Q.q5_synchronous_enqueue, Q.q9_dispatch_fails_only_when_closed,
                    Q.q3_enqueue_under_sender_lock,
                    r(DL.l2_wait_for, only=r"consumer-needs:.*held=StoreImpl\.sender-slot|floor")),
-        "explanation": "Static decision: the dispatch queue is bounded(capacity) with the configured value unmodified (CH5) and >= 1 (B1); the BlockOnFull arm consists of exactly one unbounded blocking send (CH1,CH2) executed synchronously by the caller (Q5); nothing but the consumer removes items (Q2). Waiting/wake-up timing is crossbeam's (trusted).",
+        "explanation": "Static decision: the dispatch queue is bounded(capacity) with the configured value unmodified (CH5) and >= 1 (B1); the BlockOnFull arm consists of exactly one unbounded blocking send (CH1,CH2) executed synchronously by the caller (Q5); nothing but the consumer removes items (Q2). Waiting/wake-up timing is crossbeam's (trusted). Producers enqueue under the sender lock (Q3) and the reducer thread never needs that lock (L2 on the sender slot).",
         "not_decided": ["'resumes as soon as' / eventual progress (liveness of crossbeam)", "the capacity bound itself is crossbeam's guarantee"],
     },
     "C06": {
@@ -194,7 +195,7 @@ PROPS = {
                    r(Q.q3_enqueue_under_sender_lock, drop=r":StoreImpl::close$"), r(C.dr1_result_mapping, only=r"result-maps-Err|result-ignored|floor"),
                    r(ME.me7_monotone, only=r"action_dropped"), r(C.ch5_capacity, only=r"capacity-(unmodified|modified|passed-through|from-field):|only-bounded|count:|floor"),
                    r(B.bu1_write_sets, only=r":policy$|floor"), r(B.bu3_pass_through, only=r"policy|floor")),
-        "explanation": "Static decision by exhaustive path enumeration of the send wrapper: drop arms contain only non-blocking queue operations (CH1); Ok iff enqueued (CH2); each popped/rejected action is counted by exactly one action_dropped call (CH3; the counter is one fetch_add, ME7); DropOldest pops the head only on Full and re-sends the bounced item (CH4) with producers serialised by the sender lock (Q3); Dispatcher::dispatch maps Err to Err (DR1).",
+        "explanation": "Static decision by exhaustive path enumeration of the send wrapper: drop arms contain only non-blocking queue operations (CH1); Ok iff enqueued (CH2); each popped/rejected action is counted by exactly one action_dropped call (CH3; the counter is one fetch_add, ME7); DropOldest pops the head only on Full and re-sends the bounced item (CH4) with producers serialised by the sender lock (Q3); Dispatcher::dispatch maps Err to Err (DR1). The queue has the configured capacity (CH5), the configured policy reaches it (BU1,BU3), the DropLatest arm removes nothing from the queue (CH1).",
         "not_decided": ["which action a concurrent consumer makes the victim (left open by the statement)"],
         "exhaustive": True,
     },
@@ -206,7 +207,7 @@ PROPS = {
                    r(M.mw_table, only=r"flow:.*:(ContinueAction|DoneAction|Err)|count:"), M.mw5_hooks_on_every_action,
                    r(P.n1_flag, only=r"flag-initially-true|floor"), P.n2_guard, M.n4_notify_phase_not_bypassed,
                    r(B.bu1_write_sets, only=r":(reducers|middlewares|without_reducer)$|floor"), r(B.bu3_pass_through, only=r"reducers|middlewares|floor")),
-        "explanation": "Static decision: one reducer context (Q1,Q6,ST4); phases in the documented order with no reverse path in the inlined event graph (PI2); each group iterated fully, forward, from the collection read under its lock inside the pass (PI3) whose mutators preserve registration order (SU1,RG1); a hook loop goes on to the next middleware after Continue/Done/Err (MW flow); the next action's callbacks come after the next receive (PI1).",
+        "explanation": "Static decision: one reducer context (Q1,Q6,ST4); phases in the documented order with no reverse path in the inlined event graph (PI2); each group iterated fully, forward, from the collection read under its lock inside the pass (PI3) whose mutators preserve registration order (SU1,RG1); a hook loop goes on to the next middleware after Continue/Done/Err (MW flow); the next action's callbacks come after the next receive (PI1). The notify flag starts true and guards the phase (N1,N2), the subscriber loop is not bypassed (N4), builder-registered reducers/middlewares reach the constructor (BU1,BU3).",
         "not_decided": ["run-time thread identity (decided as: no callback site outside the reducer thread's synchronous call tree)"],
     },
     "C08": {
@@ -214,13 +215,13 @@ PROPS = {
                    Q.q1_one_queue_one_consumer, r(P.pb1_publish_before_notify, only=r"NOTIFY|floor"),
                    r(P.pi1_one_pass_per_action, only=r"receive events|at-most-once-per-pass:WRITE_STATE|every-pass-has:WRITE_STATE|count:WRITE_STATE"),
                    r(S.cb1_callbacks_hold_no_reentrant_lock, only=r"no-state-lock|floor")),
-        "explanation": "Static decision: the state cell is assigned only whole chain results by one thread in reduce order (S1,PI5,Q1,PI1), readers clone it under its lock (S1), it starts as the configured initial state (S2), and the write-back lies on every path from the receive to a subscriber call of the same pass (PB1).",
+        "explanation": "Static decision: the state cell is assigned only whole chain results by one thread in reduce order (S1,PI5,Q1,PI1), readers clone it under its lock (S1), it starts as the configured initial state (S2), and the write-back lies on every path from the receive to a subscriber call of the same pass (PB1). The write-back is unconditional (PI5,PI1) and no callback runs under the state lock (CB1).",
         "not_decided": [],
     },
     "C09": {
         "rules": R(r(S.su1_mutators, drop=r"append:|floor:push"), S.su2_unsubscribe, S.su3_shutdown_release, S.su5_release_only_on_reducer_thread, S.su6_snapshot_right_before_delivery, S.su4_delivery_atomic_with_membership,
                    S.lc1_unsubscribe_sites, S.lc3_release_under_list_lock, r(X.ch_channeled_release, name="R2"), r(PI3_NOTIFY, name="PI3")),
-        "explanation": "Static decision: unsubscribe removes exactly the identical element of its own store's list under the list lock and releases it once (SU1,SU2); whatever is still listed at shutdown is released once and the list cleared in the same critical section on every path to the end of the reducer thread (SU3); no third release path (LC1); every listed element is visited on each notifying pass (PI3); channeled release is idempotent (R2). Delivery atomic with membership (SU4) is a known finding.",
+        "explanation": "Static decision: unsubscribe removes exactly the identical element of its own store's list under the list lock and releases it once (SU1,SU2); whatever is still listed at shutdown is released once and the list cleared in the same critical section on every path to the end of the reducer thread (SU3); no third release path (LC1); every listed element is visited on each notifying pass (PI3); channeled release is idempotent (R2). Delivery atomic with membership (SU4) is a known finding. Releases run under the list lock in context (LC3), the snapshot is taken right before delivery (SU6), the shutdown release survives a poisoned list lock (SU3).",
         "not_decided": [],
     },
     "C10": {
@@ -228,14 +229,15 @@ PROPS = {
                    r(T.st4_callbacks_live_in_the_loop, only=r"channeled|floor"),
                    S.lc3_release_under_list_lock, T.st1_stop_is_close_plus_join,
                    r(S.su3_shutdown_release, only=r"every-exit-releases|floor:clear")),
-        "explanation": "Static decision: the user's subscriber lives only in the spawned thread's delivery loop (R1,R4,ST4); the forwarder enqueues each notification once, unmodified, under its slot lock and never after release (R3); the channel wrapper never blocks under a drop policy and delivers the newest under DropOldest (CH1,CH2,CH4); release drops the sender, enqueues nothing, then joins - reached atomically with removal from unsubscribe and from the shutdown release (R2,SU2,SU3); defaults are DEFAULT_CAPACITY/BlockOnFull (R5).",
+        "explanation": "Static decision: the user's subscriber lives only in the spawned thread's delivery loop (R1,R4,ST4); the forwarder enqueues each notification once, unmodified, under its slot lock and never after release (R3); the channel wrapper never blocks under a drop policy and delivers the newest under DropOldest (CH1,CH2,CH4); release drops the sender, enqueues nothing, then joins - reached atomically with removal from unsubscribe and from the shutdown release (R2,SU2,SU3); defaults are DEFAULT_CAPACITY/BlockOnFull (R5). stop() closes and joins on every path (ST1).",
         "not_decided": ["run-time thread identity", "timing"],
     },
     "C11": {
         "rules": R(Q.d1_same_store_dispatcher, T.st1_stop_is_close_plus_join, E.e1_collect, E.e2_drain, E.e3_never_inline, E.e4_effect_action,
                    E.e5_total_handover, E.e6_reducer_never_enqueues, E.e7_vector_untouched_between_hooks_and_drain, E.e8_pool_not_capped,
+                   Q.q9_dispatch_fails_only_when_closed, r(_ch1_block, name="CH1"),
                    r(M.mw_table, only=r"store-leaves-effects-alone|count:before_effect")),
-        "explanation": "Static decision: every returned effect is collected into one per-pass vector (E1), the vector the hooks saw is drained completely with exactly one hand-over per variant (E2,MW3) and the store itself never removes effects (MW table), payloads run only inside closures submitted to the pool with no store lock held (E3), Effect::Action re-enters through the ordinary dispatch path on a worker (E4,E6) with the same store's dispatcher (D1), stop() joins the pool (ST1). Total hand-over after stop() took the pool (E5) is a known finding.",
+        "explanation": "Static decision: every returned effect is collected into one per-pass vector (E1), the vector the hooks saw is drained completely with exactly one hand-over per variant (E2,MW3) and the store itself never removes effects (MW table), payloads run only inside closures submitted to the pool with no store lock held (E3), Effect::Action re-enters through the ordinary dispatch path on a worker (E4,E6) with the same store's dispatcher (D1), stop() joins the pool (ST1). Total hand-over after stop() took the pool (E5) is a known finding. The pool is not capped below reducer + 2 workers (E8), the submitted job calls its payload exactly once on every path (E3), a dispatch from an effect fails only when the store is closed and the blocking arm cannot time out (Q9,CH1).",
         "not_decided": ["wall-clock non-interference of slow effects"],
     },
     "C12": {
@@ -243,37 +245,41 @@ PROPS = {
                    r(E.e2_drain, only=r"MW3:|drain-until-empty|variant-covered|count:"), E.e7_vector_untouched_between_hooks_and_drain,
                    r(P.s1_single_writer, only=r"writers of the state cell|writer-is-reducer-thread|no-other-mutable-access"),
                    r(P.pi2_phase_order, only=r"order:(HOOK:before_reduce<REDUCE|REDUCE<HOOK:before_effect|HOOK:before_effect<HANDOVER|HOOK:before_dispatch<NOTIFY)"),
-                   r(S.rg1_registration_order, only=r"middleware")),
-        "explanation": "Static decision by exhaustive path enumeration of one iteration of each of the three hook loops: 3 hooks x {Continue, Done, Break, Err} have exactly the documented control flow, flag writes and on_error calls (MW), flags start true and guard their phase (MW2), hook arguments are the documented states and action (MW1,PI6), the new state is written once, independent of the verdicts and before before_dispatch (S1,PI5,PI2), and the drained effects vector is the one the hooks saw, untouched by the store (MW3,E2).",
+                   r(S.rg1_registration_order, only=r"middleware"), r(P.pi3_full_forward_iteration, only=r":HOOK:", name="PI3"),
+                   r(E.e3_never_inline, only=r"job-runs-its-payload|floor")),
+        "explanation": "Static decision by exhaustive path enumeration of one iteration of each of the three hook loops: 3 hooks x {Continue, Done, Break, Err} have exactly the documented control flow, flag writes and on_error calls (MW), flags start true and guard their phase (MW2), hook arguments are the documented states and action (MW1,PI6), the new state is written once, independent of the verdicts and before before_dispatch (S1,PI5,PI2), and the drained effects vector is the one the hooks saw, untouched by the store (MW3,E2). Hooks are consulted in registration order over the list read under its lock (RG1,PI3); jobs run the effects a middleware left (E3).",
         "not_decided": ["whether a vetoed action still notifies (unspecified)"],
         "exhaustive": True,
     },
     "C13": {
         "rules": R(DL.l1_lock_order, DL.l2_wait_for, E.e6_reducer_never_enqueues,
                    T.st1_stop_is_close_plus_join, Q.q4_close, T.st3_loop_exits,
-                   r(S.cb1_callbacks_hold_no_reentrant_lock, only=r"no-state-lock|floor")),
-        "explanation": "Static deadlock analysis on context-sensitive inlined call graphs rooted at every entry point of every thread role (client API, reducer thread, pool jobs, channeled thread, iterator consumer), with class-hierarchy resolution of dyn calls into the crate's impls and the property's own model of user callbacks: the lock-order graph is acyclic without self edges (L1); no blocking send/recv/join is performed while holding a lock the unblocking party takes, no role blocks on a channel only it consumes, joined threads are disconnected first (L2, E6); the thread stop() joins is guaranteed its Exit: stop() closes first, close() enqueues Exit under a blocking lock on every path, the loop leaves on Exit (ST1,Q4,ST3).",
+                   r(S.cb1_callbacks_hold_no_reentrant_lock, only=r"no-state-lock|floor"),
+                   C.ch1_arm_purity, r(X.it_iterator, only=r"feeder-forwards-once:on_unsubscribe")),
+        "explanation": "Static deadlock analysis on context-sensitive inlined call graphs rooted at every entry point of every thread role (client API, reducer thread, pool jobs, channeled thread, iterator consumer), with class-hierarchy resolution of dyn calls into the crate's impls and the property's own model of user callbacks: the lock-order graph is acyclic without self edges (L1); no blocking send/recv/join is performed while holding a lock the unblocking party takes, no role blocks on a channel only it consumes, joined threads are disconnected first (L2, E6); the thread stop() joins is guaranteed its Exit: stop() closes first, close() enqueues Exit under a blocking lock on every path, the loop leaves on Exit (ST1,Q4,ST3). Premises about the leaf wrapper and the joined threads: drop arms never block, the blocking arm is one blocking send (CH1), stop() closes first, close() enqueues Exit on every path and the loop leaves on it (ST1,Q4,ST3), the iterator is released by a blocking Exit send (IT2), callbacks never run under the state lock (CB1).",
         "not_decided": ["progress inside crossbeam/rusty_pool/std", "a client thread playing two roles itself", "the 3 s timeout masking a hang"],
     },
     "C14": {
         "rules": R(X.it_iterator, S.su5_release_only_on_reducer_thread, P.n3_payload, P.n2_guard,
-                   r(S.su3_shutdown_release, only=r"every-exit-releases|release-after-loop|floor|plain-forward|no-early-exit|in-loop|receiver-from"),
+                   r(S.su3_shutdown_release, only=r"every-exit-releases|release-after-loop|release-under-list-lock|floor|plain-forward|no-early-exit|in-loop|receiver-from"),
+                   S.lc3_release_under_list_lock,
                    r(_ch1_block, name="CH1"), r(_ch2_block, name="CH2"), r(PI3_NOTIFY, name="PI3"),
                    r(P.pi6_action_identity, only=r"NOTIFY"),
                    r(S.su2_unsubscribe, only=r"compares-element-with-own-subscriber|identity-test|removes-exactly-the-identical-element|on_unsubscribe-iff-removed|floor"),
                    M.n4_notify_phase_not_bypassed),
-        "explanation": "Static decision: iter() registers a direct subscriber that forwards each notification once into a capacity-1 blocking (lossless) channel (IT1,IT2,CH1,CH2) fed by the ordinary notify phase (N2,N3,PI3,PI6); Exit is sent by the shutdown release, which every path to the end of the reducer thread passes after the last notification (SU3); next() passes pairs through and is fused, drop detaches (IT3,IT4; exhaustive).",
+        "explanation": "Static decision: iter() registers a direct subscriber that forwards each notification once into a capacity-1 blocking (lossless) channel (IT1,IT2,CH1,CH2) fed by the ordinary notify phase (N2,N3,PI3,PI6); Exit is sent by the shutdown release, which every path to the end of the reducer thread passes after the last notification (SU3); next() passes pairs through and is fused, drop detaches (IT3,IT4; exhaustive). The handle removes and releases exactly its own subscriber, once (SU2,LC3); the subscriber loop is not bypassed (N4).",
         "not_decided": ["blocking behaviour of dropping an iterator with an unread item (C13's finding)", "timing"],
         "exhaustive": True,
     },
     "C15": {
-        "rules": R(X.ds_droppable, T.st1_stop_is_close_plus_join, Q.q4_close, T.st2_closed_means_err, S.su3_shutdown_release, T.st3_loop_exits),
-        "explanation": "Static decision: Drop for DroppableStore calls StoreImpl::stop on the wrapped Arc on every path, unconditionally (DS1), Deref hands out that same Arc (DS2), and stop() has the barrier/finality premises of C04 (ST1,Q4,ST2,ST3,SU3).",
+        "rules": R(X.ds_droppable, T.st1_stop_is_close_plus_join, Q.q4_close, T.st2_closed_means_err, S.su3_shutdown_release, T.st3_loop_exits,
+                   r(C.ch1_arm_purity, only=r"drop-latest-never-dequeues|paths-complete"), r(X.ch_channeled_release, name="R2")),
+        "explanation": "Static decision: Drop for DroppableStore calls StoreImpl::stop on the wrapped Arc on every path, unconditionally (DS1), Deref hands out that same Arc (DS2), and stop() has the barrier/finality premises of C04 (ST1,Q4,ST2,ST3,SU3). The DropLatest arm never evicts a queued action for Exit (CH1); channeled release disconnects then joins (R2).",
         "not_decided": ["as C04"],
     },
     "C16": {
-        "rules": R(X.se_selector, X.se5_last_value_single_writer),
-        "explanation": "Decided completely (modulo PartialEq being the user's equality) by exhaustive path enumeration of SelectorSubscriber::on_notify: select once (SE1); first/changed => one on_change(selected, action) then store; equal => nothing (SE2); all under the last_value lock (SE3); initial None and plain registration (SE4).",
+        "rules": R(X.se_selector, X.se5_last_value_single_writer, r(PI3_NOTIFY, name="PI3"), P.n2_guard, M.n4_notify_phase_not_bypassed),
+        "explanation": "Decided completely (modulo PartialEq being the user's equality) by exhaustive path enumeration of SelectorSubscriber::on_notify: select once (SE1); first/changed => one on_change(selected, action) then store; equal => nothing (SE2); all under the last_value lock (SE3); initial None and plain registration (SE4). The ordinary notify phase reaches every listed subscriber on every notifying action (PI3,N2,N4).",
         "not_decided": [],
         "exhaustive": True,
     },
@@ -285,15 +291,16 @@ PROPS = {
         "exhaustive": True,
     },
     "C18": {
-        "rules": R(ME.me1_received, ME.me2_drop_feeders, C.ch3_drop_accounting, ME.me3_reduced, ME.me4_effect_issued, M.mw4_counter, ME.me6_errors,
+        "rules": R(ME.me1_received, ME.me2_drop_feeders, r(_ch1_block, name="CH1"), C.ch3_drop_accounting, ME.me3_reduced, ME.me4_effect_issued, M.mw4_counter, ME.me6_errors,
                    ME.me7_monotone, ME.me8_snapshot, ME.me9_one_metrics_object, E.e1_collect),
         "explanation": "Static pairing rules: one counter call per event at the place that makes the balance equations hold (ME1,CH3,ME3,ME4,MW4,ME6,E1), counters only ever fetch_add'ed, each method its own counter (ME7), snapshot fields map 1:1 (ME8), one metrics object per store shared with the dispatch queue only (ME9, ME2). ME2 (a second feeder of action_dropped) is a known finding.",
         "not_decided": ["time-valued metrics", "remaining_queue*"],
     },
     "C19": {
-        "rules": R(IN.in1_no_process_wide_state, IN.in2_fresh_resources, IN.in3_handles_stay_home, IN.in4_public_subscribers_have_no_lifecycle_state, IN.in5_shared_callbacks_never_skip_on_contention,
+        "rules": R(IN.in1_no_process_wide_state, IN.in2_fresh_resources, IN.in3_handles_stay_home, IN.in4_public_subscribers_have_no_lifecycle_state, IN.in5_shared_callbacks_never_skip_on_contention, IN.in6_shareable_callbacks_own_no_new_shared_state,
+                   r(S.cb1_callbacks_hold_no_reentrant_lock, only=r"no-state-lock|floor"),
                    Q.d1_same_store_dispatcher, ME.me9_one_metrics_object),
-        "explanation": "Non-interference by separation, all static: no static/thread_local/unsafe/process-global API, third-party callees instance-scoped (IN1); every per-store resource is created in the constructor call (IN2,ME9); handles capture their own store's list, dispatchers wrap their own store, wrappers own their own channel, the name is only formatted (IN3,SU2,D1).",
+        "explanation": "Non-interference by separation, all static: no static/thread_local/unsafe/process-global API, third-party callees instance-scoped (IN1); every per-store resource is created in the constructor call (IN2,ME9); handles capture their own store's list, dispatchers wrap their own store, wrappers own their own channel, the name is only formatted (IN3,SU2,D1). Exported callback types never try_lock (IN5) and own no interior-mutable state outside the confirmed table (IN6); no callback runs under the state lock, so another store's callback may read this store's state (CB1).",
         "not_decided": ["global state inside the dependencies", "CPU contention"],
     },
 }
